@@ -45,6 +45,7 @@ structure BSys where
   ws : List BW
   accepted : List Msg := []        -- ghost: messages whose enqueue returned true, in order
   gone : List Msg := []            -- ghost: messages that left the queue (dequeued, dropped, cleared), in order
+  clearedN : Nat := 0              -- ghost: how many messages `clear` threw away
   crashed : Bool := false
   deriving Repr
 
@@ -79,7 +80,7 @@ def BSys.step (s : BSys) : BAct → BSys
     | (q', .crash) => { s with q := q', crashed := true }
     | (q', .none) => { s with q := q' }
   | .clear =>
-    { s with q := s.q.clear, gone := s.gone ++ s.q.contents,
+    { s with q := s.q.clear, gone := s.gone ++ s.q.contents, clearedN := s.clearedN + s.q.count,
              signaled := (s.clearSignals && s.q.blockWriter) || s.signaled }
 
 def BSys.run (s : BSys) (acts : List BAct) : BSys := acts.foldl BSys.step s
